@@ -62,36 +62,48 @@ structure Kw where
   other : Bool
   deriving DecidableEq, Repr
 
+/-- `if len(args) > len(self._param_names): mapping['max_samples'] = args.pop()` -/
+def popSurplus (d : Delta) (args : List (Option Nat)) : List (Option Nat) × Delta :=
+  if (if d.takesMs then 1 else 0) < args.length then
+    (args.dropLast, { d with mapMs := some (args.getLast?.getD none) })
+  else (args, d)
+
+/-- `for idx, unnamed_arg in enumerate(args): … command[param_name] = unnamed_arg` -/
+def bindPositional (d : Delta) (args : List (Option Nat)) (kw : Kw) : Except String Delta :=
+  match args with
+  | [] => .ok d
+  | a :: rest =>
+    if !d.takesMs then .error "IndexError"
+    else if kw.ms.isSome then .error "RuntimeError"          -- "passed twice"
+    else if !rest.isEmpty then .error "IndexError"
+    else .ok { d with cmdMs := some a }
+
+def fillCmdMs (r : Delta × Kw) : Delta × Kw :=
+  match r.1.cmdMs, r.2.ms with
+  | some none, some v => ({ r.1 with cmdMs := some v }, { r.2 with ms := none })
+  | _, _ => r
+
+def fillMapMs (r : Delta × Kw) : Delta × Kw :=
+  match r.1.mapMs, r.2.ms with
+  | some none, some v => ({ r.1 with mapMs := some v }, { r.2 with ms := none })
+  | _, _ => r
+
+def fillMapSh (r : Delta × Kw) : Delta × Kw :=
+  match r.1.mapSh, r.2.sh with
+  | some none, some v => ({ r.1 with mapSh := some v }, { r.2 with sh := none })
+  | _, _ => r
+
+/-- `for k, v in command.items(): if v is None and k in kwargs: …; del kwargs[k]`, then the same for the mapping -/
+def fillKw (d : Delta) (kw : Kw) : Delta × Kw := fillMapSh (fillMapMs (fillCmdMs (d, kw)))
+
 /-- `Job._handle_params(args, kwargs)` -/
 def handleParams (d : Delta) (args : List (Option Nat)) (kw : Kw) : Except String Delta :=
-  let nNames := if d.takesMs then 1 else 0
-  -- `if len(args) > len(self._param_names): mapping['max_samples'] = args.pop()`
-  let (args, d) := if nNames < args.length then (args.dropLast, { d with mapMs := some (args.getLast?.getD none) })
-                   else (args, d)
-  -- `for idx, unnamed_arg in enumerate(args)`
-  let step1 : Except String Delta :=
-    match args with
-    | [] => .ok d
-    | a :: rest =>
-      if !d.takesMs then .error "IndexError"
-      else if kw.ms.isSome then .error "RuntimeError"
-      else if !rest.isEmpty then .error "IndexError"
-      else .ok { d with cmdMs := some a }
-  match step1 with
+  match bindPositional (popSurplus d args).2 (popSurplus d args).1 kw with
   | .error e => .error e
-  | .ok d =>
-    -- `for k, v in command.items(): if v is None and k in kwargs`
-    let (d, kw) := match d.cmdMs, kw.ms with
-      | some none, some v => ({ d with cmdMs := some v }, { kw with ms := none })
-      | _, _ => (d, kw)
-    -- the same for the mapping
-    let (d, kw) := match d.mapMs, kw.ms with
-      | some none, some v => ({ d with mapMs := some v }, { kw with ms := none })
-      | _, _ => (d, kw)
-    let (d, kw) := match d.mapSh, kw.sh with
-      | some none, some v => ({ d with mapSh := some v }, { kw with sh := none })
-      | _, _ => (d, kw)
-    if kw.ms.isSome || kw.sh.isSome || kw.other then .error "RuntimeError" else .ok d
+  | .ok d1 =>
+    let r := fillKw d1 kw
+    if r.2.ms.isSome || r.2.sh.isSome || r.2.other then .error "RuntimeError"   -- "Unused parameters"
+    else .ok r.1
 
 /-- what the processor is finally asked -/
 inductive Call where
@@ -164,5 +176,14 @@ def jobPlan (avail : List Cmd) (method : Cmd) (c : SCfg) (its : List Iter) (args
 `_deduce_count(None, max_shots=…, max_samples=…)` on the converter's keywords -/
 def convertedCount (kwargs : Option (Option Nat) × Option (Option Nat)) : Except String Nat :=
   deduceCount none kwargs.2.join kwargs.1.join
+
+/-- does the converter call fail (every failure of a converter surfaces as `RuntimeError`: its own, or
+"Results are not available" for the `TypeError` of an unexpected keyword) -/
+def convFails (method prim : Cmd) (kwargs : Option (Option Nat) × Option (Option Nat)) : Bool :=
+  if converterTakesKw method prim then
+    match convertedCount kwargs with
+    | .ok _ => false
+    | .error _ => true
+  else kwargs.1.isSome || kwargs.2.isSome
 
 end PM.C09
